@@ -72,6 +72,7 @@ fn replay_regressions(env: &mut Env, id: &str) -> u64 {
                         signature: fl.sig,
                         shrunk: true,
                         before: rep.before.clone(),
+                        concurrent_with: Vec::new(),
                     });
                 }
             }
@@ -266,6 +267,9 @@ fn cmd_merge(args: &[String]) -> i32 {
             if !v.before.is_empty() {
                 println!("  judged before it on the same thread: {}", serde_json::Value::Array(v.before.clone()));
             }
+            if !v.concurrent_with.is_empty() {
+                println!("  judged at the same time on the other threads: {}", serde_json::Value::Array(v.concurrent_with.clone()));
+            }
             println!("  case={}", v.case);
             println!("  expected: {}", v.expected);
             println!("  actual:   {}", v.actual);
@@ -337,6 +341,29 @@ fn cmd_replay(args: &[String]) -> i32 {
         eprintln!("unknown check {}", rep.check);
         return 2;
     };
+    if !rep.concurrent_with.is_empty() {
+        // a failure that needs other threads: judge the whole group concurrently again
+        let Some(cf) = env.contend_registry.get(rep.check.as_str()).copied() else { return 2 };
+        let mut group = vec![rep.case.clone()];
+        group.extend(rep.concurrent_with.iter().cloned());
+        return match cf(&group, env.threads, 3_000) {
+            Ok(Some((idx, f))) => {
+                println!("VIOLATION property={} replay={}", rep.property, file);
+                println!("  profile={} signature={:?} (member #{} of the group, judged concurrently on {} threads)", profile, f.sig, idx, env.threads);
+                println!("  expected: {}", f.expected);
+                println!("  actual:   {}", f.actual);
+                1
+            }
+            Ok(None) => {
+                println!("PASS profile={} (group of {} judged 3000 times on {} threads)", profile, group.len(), env.threads);
+                0
+            }
+            Err(e) => {
+                eprintln!("case does not deserialise: {}", e);
+                2
+            }
+        };
+    }
     match func(&rep.case, &rep.before) {
         Ok((Verdict::Fail(f), _)) => {
             if let Some(k) = env.is_known(&f.sig) {
@@ -388,7 +415,7 @@ fn cmd_fuzz_decode(args: &[String]) -> i32 {
     let Ok(data) = std::fs::read(file) else { return 2 };
     match astrolabe_verif::fuzz::decode(target, &data) {
         Some((property, check, case)) => {
-            let rep = Replay { property, check, profile: "fuzz".into(), seed: 0, case, expected: String::new(), actual: format!("libFuzzer artifact {}", file), signature: String::new(), shrunk: false, before: Vec::new() };
+            let rep = Replay { property, check, profile: "fuzz".into(), seed: 0, case, expected: String::new(), actual: format!("libFuzzer artifact {}", file), signature: String::new(), shrunk: false, before: Vec::new(), concurrent_with: Vec::new() };
             println!("{}", serde_json::to_string_pretty(&rep).unwrap());
             0
         }
